@@ -337,6 +337,12 @@ pub fn as_field_name(xml_name: &str) -> String {
 /// Makes a field, method or function name usable as a Rust identifier: keywords become raw identifiers,
 /// the few keywords that cannot be raw (`self`, `Self`, `super`, `crate`) get a trailing underscore.
 pub fn rename_keywords(field_name: &str) -> Cow<'_, str> {
+    // case conversion keeps every alphanumeric character, but the numeric ones outside ASCII (superscripts, circled
+    // digits, fractions) cannot be part of an identifier
+    if field_name.chars().any(|c| !c.is_ascii() && c.is_numeric()) {
+        let cleaned: String = field_name.chars().filter(|c| c.is_ascii() || !c.is_numeric()).collect();
+        return Cow::Owned(rename_keywords(&cleaned).into_owned());
+    }
     match field_name {
         "self" | "Self" | "super" | "crate" => Cow::Owned(format!("{field_name}_")),
         // strict and reserved keywords (edition 2024)
